@@ -148,8 +148,12 @@ def array_compare(eng, op, a, b):
     k = _join_kind(arrv.kind, ks)
     sz = to_z3(sc, k)
     if left:
-        return SArr(lam(lambda i: f(to_z3(arrv.get(i), k), sz), "bool"), arrv.n, "bool")
-    return SArr(lam(lambda i: f(sz, to_z3(arrv.get(i), k)), "bool"), arrv.n, "bool")
+        out = SArr(lam(lambda i: f(to_z3(arrv.get(i), k), sz), "bool"), arrv.n, "bool")
+    else:
+        out = SArr(lam(lambda i: f(sz, to_z3(arrv.get(i), k)), "bool"), arrv.n, "bool")
+    if isinstance(op, ast.Eq) and getattr(arrv, "diff_of", None) is not None and not isinstance(sc, Sym) and k in ("int", "real"):
+        out.steps_of = (arrv.diff_of, sc)  # `np.diff(a) == c`: remembered for np.all (see _np_all_any)
+    return out
 
 
 def inplace_binop(eng, op, cur, val):
@@ -764,23 +768,70 @@ def _np_cumsum(eng, args, kwargs):
     return out
 
 
-def _np_all(eng, args, kwargs):
-    """np.all(mask) / np.any(mask) of a 1-D boolean array, no axis: the array's own .all() / .any()"""
-    if len(args) != 1 or kwargs:
-        raise Unsupported("np.all / np.any with axis or further arguments")
-    used(eng, "np.all")
-    return _a_all(eng, args[0], [], {})
+def _np_diff(eng, args, kwargs):
+    """np.diff(a) of a 1-D array (n = 1, last axis): out[i] = a[i+1] - a[i], max(len(a) - 1, 0) entries, a fresh array."""
+    a = args[0]
+    if kwargs.get("n", args[1] if len(args) > 1 else 1) != 1 or set(kwargs) - {"n", "axis"}:
+        raise Unsupported("np.diff with n != 1 / prepend / append")
+    if isinstance(a, PList) and a.items is None and not a.tup:
+        a = SArr(a.cols[0], a.n, a.kinds[0])
+    if isinstance(a, SArr) and not hasattr(a, "__pyvc_getitem__"):
+        if kwargs.get("axis", args[2] if len(args) > 2 else -1) not in (-1, 0):
+            raise ProgExc(ValueError, "axis out of bounds for a 1-D array")
+        if a.kind not in ("int", "real"):
+            raise Unsupported("np.diff of a boolean array")
+        used(eng, "np.diff-1d: out[i] = a[i+1] - a[i], max(len - 1, 0) entries, fresh")
+        n = a.nz()
+        out = SArr(lam(lambda i: a.get(i + 1).z - a.get(i).z, a.kind), z3.simplify(z3.If(n >= 1, n - 1, z3.IntVal(0))), a.kind, name="diff", dtype=a.dtype)
+        out.diff_of = a
+        return out
+    if isinstance(a, NArr) and a.ndim == 1 and a.kind in ("int", "real"):
+        used(eng, "np.diff-1d: out[i] = a[i+1] - a[i], max(len - 1, 0) entries, fresh")
+        it = a.items
+        return NArr((max(len(it) - 1, 0),), [eng.binop(ast.Sub(), it[j + 1], it[j]) for j in range(len(it) - 1)], a.kind, a.dtype)
+    raise Unsupported("np.diff of this operand")
 
 
-def _np_any(eng, args, kwargs):
-    if len(args) != 1 or kwargs:
-        raise Unsupported("np.all / np.any with axis or further arguments")
-    used(eng, "np.any")
-    return _a_any(eng, args[0], [], {})
+def _np_all_any(is_all):
+    def model(eng, args, kwargs):
+        """np.all(a) / np.any(a) without axis: the conjunction / disjunction of the truth values of all entries (True / False when empty)."""
+        a = args[0]
+        if len(args) != 1 or kwargs:
+            raise Unsupported("np.all / np.any with an axis")
+        if isinstance(a, SArr):
+            used(eng, "np.all/np.any: every / some entry is true")
+            j = z3.Int(fresh_name("j"))
+            t = (lambda x: x.z) if a.kind == "bool" else (lambda x: x.z != 0)
+            if is_all:
+                r = eng.sbool(z3.ForAll([j], z3.Implies(z3.And(j >= 0, j < a.nz()), t(a.get(j)))))
+                if getattr(a, "steps_of", None) is not None and isinstance(r, Sym):
+                    # np.all(np.diff(src) == c) for a concrete c: src is the arithmetic progression src[0] + j*c.  The implication needs
+                    # induction over the positions (z3 does none): stated as a named lemma
+                    src, c = a.steps_of
+                    eng.assumptions.add("assumed-lemma:arithmetic-progression: all(np.diff(a) == c) for a constant c implies a[j] = a[0] + j*c for every position j")
+                    jz = to_z3(Sym(j, "int"), src.kind)
+                    eng.assume(z3.Implies(r.z, z3.ForAll([j], z3.Implies(z3.And(j >= 0, j < src.nz()), src.get(j).z == src.get(0).z + jz * to_z3(c, src.kind)))))
+                return r
+            return eng.sbool(z3.Exists([j], z3.And(j >= 0, j < a.nz(), t(a.get(j)))))
+        if isinstance(a, PList) and a.items is not None:
+            items = a.items
+        elif isinstance(a, NArr):
+            items = a.items
+        elif kind_of(a) is not None:
+            items = [a]
+        else:
+            raise Unsupported("np.all / np.any of this operand")
+        used(eng, "np.all/np.any: every / some entry is true")
+        acc = is_all
+        for x in items:
+            acc = eng.and_(acc, eng.truth(x)) if is_all else eng.or_(acc, eng.truth(x))
+        return acc
+
+    return model
 
 
 NP_MODELS = {
-    np.all: _np_all, np.any: _np_any,
+    np.diff: _np_diff, np.all: _np_all_any(True), np.any: _np_all_any(False),
     np.cumsum: _np_cumsum,
     np.arange: _np_arange, np.where: _np_where, np.count_nonzero: _np_count_nonzero, np.full_like: _np_full_like,
     np.ones_like: _np_ones_like, np.zeros_like: _np_zeros_like, np.array: _np_array, np.issubdtype: _np_issubdtype,
